@@ -17,6 +17,8 @@ mod show;
 mod c08;
 mod c06;
 mod c16;
+mod ls;
+mod c07;
 mod inputs;
 
 #[path = "/repo/harper-ls/src/git_commit_parser.rs"]
@@ -59,6 +61,8 @@ fn main() {
         "c08" => c08::main(&a),
         "c06" => c06::main(&a),
         "c16" => c16::main(&a),
+        "lsdemo" => ls::demo(&a),
+        "c07" => c07::main(&a),
         other => {
             eprintln!("unknown subcommand {other}");
             std::process::exit(2);
